@@ -224,6 +224,8 @@ static inline uint32_t FG_getEdgeData_f(uint64_t it) { __CPROVER_assert(it < fg.
 /* divideByNode(...).first: ASSUMED contract = what C13 proves about divideNodesBinarySearch: a node range inside [0, numNodes) */
 #define GV_NOP(...) ((void)0)
 #define DONE_IDX (self->edgeIndData[g_pn] == FIDX(g_pn))
+#define DONE_DST64 (self->edgeDst[g_x] == (uint32_t)((const uint64_t*)fg.outs)[g_x])
+static inline uint64_t FG_getEdgeDst64_f(uint64_t it) { __CPROVER_assert(it < fg.numEdges, "getEdgeDst: edge in range"); return ((const uint64_t*)fg.outs)[it]; }
 #define DONE_EDGE (self->edgeDst[g_x] == ((const uint32_t*)fg.outs)[g_x] && self->edgeData[g_x] == ((const uint32_t*)fg.edgeData)[g_x])
 """
 UNITS.append(Unit(
@@ -266,6 +268,38 @@ __CPROVER_decreases(en - nn)"""},
     inst='EdgeTy = FileEdgeTy = uint32_t, version-1 file, whole file (nodeOffset = edgeOffset = 0), weighted read',
     says='constructFrom(FileGraph&, tid, total) -- the per-thread body of readGraph for LC_CSR: for the node range this thread is given, the index entries are the file\'s (clamped) index entries and the edge slots of exactly those nodes hold the file\'s destinations and edge data, in file order; no other node or slot is written (ghost probe node / slot)',
     trusted=['FileGraph accessor calls replaced by inline stubs that restate the proved FG_* contracts for a whole file + "the file index never decreases" (file validity)', 'divideByNode: assumed contract (C13)', 'setLocalRange / nodeData.constructAt / outOfLineConstructAt dropped']))
+UNITS.append(Unit(
+    name='CSR_constructFrom_file_void_v2', src=CSR, within=WITHIN, anchor=r'void constructFrom\(FileGraph& graph, unsigned tid, unsigned total,\s*const bool GALOIS_UNUSED\(readUnweighted\) = false\)',
+    proto='void CSR_constructFrom_file_void_v2(struct CSRF* self, unsigned tid, unsigned total, const bool readUnweighted)',
+    contract="""__CPROVER_requires(__CPROVER_is_fresh(self, sizeof(*self)) && FG_SHAPE && fg.nodeOffset == 0 && fg.edgeOffset == 0 && fg.graphVersion == 2 && fg.numNodes <= (1u << 24) && total >= 1 && tid < total && !readUnweighted)
+__CPROVER_requires(self->numNodes == fg.numNodes && self->numEdges == fg.numEdges && g_pn < fg.numNodes && g_x < fg.numEdges)
+__CPROVER_requires(__CPROVER_is_fresh(fg.outIdx, fg.numNodes * sizeof(uint64_t)) && __CPROVER_is_fresh(fg.outs, (fg.numEdges + 1) * sizeof(uint64_t)) && __CPROVER_is_fresh(fg.edgeData, (fg.numEdges + 1) * sizeof(uint32_t)))
+__CPROVER_requires(__CPROVER_is_fresh(self->edgeIndData, fg.numNodes * sizeof(uint64_t)) && __CPROVER_is_fresh(self->edgeDst, (fg.numEdges + 1) * sizeof(uint32_t)) && __CPROVER_is_fresh(self->edgeData, (fg.numEdges + 1) * sizeof(uint32_t)))
+/* this thread's nodes get the file's index entries; the edge slots of exactly those nodes get the file's destinations and data */
+__CPROVER_ensures((g_lo <= g_pn && g_pn < g_hi) ? DONE_IDX : self->edgeIndData[g_pn] == __CPROVER_old(self->edgeIndData[g_pn]))
+__CPROVER_ensures((BEG(g_lo) <= g_x && g_x < BEG(g_hi)) ? DONE_DST64 : (self->edgeDst[g_x] == __CPROVER_old(self->edgeDst[g_x])))
+__CPROVER_assigns(__CPROVER_object_whole(self->edgeIndData), __CPROVER_object_whole(self->edgeDst), __CPROVER_object_whole(self->edgeData), fg.numBytesReadIndex, fg.numBytesReadEdgeDst, fg.numBytesReadEdgeData)""",
+    prelude=[FP, CFP], uses=['FG_divideByNode_nodes'],
+    lower=[rx(r'auto r =\s*graph\s*\.divideByNode\(.*?\)\s*\.first;', 'struct pair_u64 r = FG_divideByNode_nodes(tid, total);', 1, 1, flags=re.S),
+           rx(r'this->setLocalRange\(\*r\.first, \*r\.second\);', 'GV_NOP();', 1, 1), rx(r'FileGraph::iterator ii = r\.first, ei = r\.second', 'uint64_t ii = r.first, ei = r.second', 1, 1),
+           rx(r'nodeData\.constructAt\(\*ii\);', 'GV_NOP();', 1, 1), rx(r'this->outOfLineConstructAt\(\*ii\);', 'GV_NOP();', 1, 1),
+           rx(r'FileGraph::edge_iterator nn = ', 'uint64_t nn = ', 1, 1), rx(r'(?<=\n)(\s+)en = graph', r'\1en = graph', 0),
+           rx(r'\*graph\.edge_end\(\*ii\)', 'FG_edge_end_f(ii)', 1), rx(r'graph\.edge_end\(\*ii\)', 'FG_edge_end_f(ii)', 1), rx(r'graph\.edge_begin\(\*ii\)', 'FG_edge_begin_f(ii)', 1),
+           rx(r'constructEdgeValue\(graph, nn\);', 'GV_NOP();   /* EdgeTy = void: nothing to store */', 1, 1),
+           rx(r'edgeDst\[\*nn\] = graph\.getEdgeDst\(nn\);', 'self->edgeDst[nn] = (uint32_t)FG_getEdgeDst64_f(nn);', 1, 1), rx(r'edgeIndData\[\*ii\]', 'self->edgeIndData[ii]', 1, 1)],
+    loops={1: """__CPROVER_assigns(ii, __CPROVER_object_whole(self->edgeIndData), __CPROVER_object_whole(self->edgeDst), __CPROVER_object_whole(self->edgeData), fg.numBytesReadIndex, fg.numBytesReadEdgeDst, fg.numBytesReadEdgeData)
+__CPROVER_loop_invariant(g_lo <= ii && ii <= g_hi && ei == g_hi && g_hi <= fg.numNodes && BEG(g_lo) <= BEG(ii) && BEG(ii) <= fg.numEdges)
+__CPROVER_loop_invariant((g_lo <= g_pn && g_pn < ii) ? DONE_IDX : self->edgeIndData[g_pn] == __CPROVER_loop_entry(self->edgeIndData[g_pn]))
+__CPROVER_loop_invariant((BEG(g_lo) <= g_x && g_x < BEG(ii)) ? DONE_DST64 : (self->edgeDst[g_x] == __CPROVER_loop_entry(self->edgeDst[g_x])))
+__CPROVER_decreases(g_hi - ii)""",
+           2: """__CPROVER_assigns(nn, __CPROVER_object_whole(self->edgeDst), __CPROVER_object_whole(self->edgeData), fg.numBytesReadEdgeDst, fg.numBytesReadEdgeData)
+__CPROVER_loop_invariant(BEG(ii) <= nn && nn <= en && en == FIDX(ii) && en <= fg.numEdges && ii < g_hi && g_hi <= fg.numNodes && BEG(g_lo) <= BEG(ii))
+__CPROVER_loop_invariant((BEG(g_lo) <= g_x && g_x < nn) ? DONE_DST64 : (self->edgeDst[g_x] == __CPROVER_loop_entry(self->edgeDst[g_x])))
+__CPROVER_decreases(en - nn)"""},
+    backend='smt', timeout=900, no_flags=['--conversion-check'],
+    inst='EdgeTy = void, version-2 file (64-bit destinations narrowed to the graph\'s 32-bit node ids), whole file',
+    says='constructFrom for graphs WITHOUT edge data from a version-2 file -- the per-thread body of readGraph for LC_CSR: for the node range this thread is given, the index entries are the file\'s (clamped) index entries and the edge slots of exactly those nodes hold the file\'s destinations and edge data, in file order; no other node or slot is written (ghost probe node / slot)',
+    trusted=['FileGraph accessor calls replaced by inline stubs that restate the proved FG_* contracts for a whole file + "the file index never decreases" (file validity)', 'divideByNode: assumed contract (C13)', 'setLocalRange / nodeData.constructAt / outOfLineConstructAt dropped']))
 UNITS.append(Unit(name='FG_divideByNode_nodes', kind='assumed', proto='struct pair_u64 FG_divideByNode_nodes(unsigned tid, unsigned total)',
                   contract="""__CPROVER_requires(total >= 1 && tid < total)
 __CPROVER_ensures(__CPROVER_return_value.first == g_lo && __CPROVER_return_value.second == g_hi && g_lo <= g_hi && g_hi <= fg.numNodes)
@@ -280,6 +314,6 @@ EXPLANATION = ('LC_CSR_Graph raw_begin/raw_end/getDegree and the callback constr
                'Construction from a graph file: FileGraph::edge_begin/edge_end/getEdgeDst (v1, v2)/getEdgeData<uint32|uint64> against the file sections, LC_CSR_Graph::constructEdgeValue, and the per-thread body constructFrom(FileGraph&, tid, total): '
                'for the node range a thread is given, index entries, destinations and edge data of exactly those nodes are the file\'s, in file order, and nothing else is written.')
 NOT_DECIDED = ('every other layout (CSR+CSC, InOut, Linear, InlineEdge, Morph-LC, hypergraph), in-edges, transpose, edge sorting, binary-search lookup, NUMA options, local ranges (C13 covers the division); '
-               'the composition of the per-thread constructFrom calls over all threads (the node ranges partition the nodes: C13) and the allocation/readGraph driver; void edge data and version-2 files for constructFrom; partial files (nodeOffset/edgeOffset != 0).')
+               'the composition of the per-thread constructFrom calls over all threads (the node ranges partition the nodes: C13) and the allocation/readGraph driver; constructFrom for other instantiations than (uint32 data, v1) and (void, v2); partial files (nodeOffset/edgeOffset != 0).')
 ASSUMPTIONS = ['callbacks are deterministic; per-node edge count <= 2^20, numNodes <= 2^24 (size bounds)', 'the prefix-sum ghost array is defined by the instances edgeNum(n) produces (never written)', 'allocation calls dropped; LargeArray = plain arrays',
                'constructFrom: the FileGraph calls are inline stubs restating the proved FG_* contracts for a whole file, plus "the file index never decreases" (validity of the input file); divideByNode = assumed contract (C13); little-endian host']
